@@ -8,7 +8,7 @@
 
    A publication is [off, f] : offset and "filtered placeholder" flag
    (Time == -1 in the code).  Payload identity is added by the harness.   *)
-EXTENDS Integers, Sequences, FiniteSets, SequencesExt, FiniteSetsExt
+EXTENDS MergeOps, FiniteSetsExt
 
 CONSTANTS MaxOff, MaxLen
 
@@ -19,44 +19,7 @@ VARIABLES rec, buf, res
 vars == <<rec, buf, res>>
 
 ---------------------------------------------------------------------------
-(* --- the code, step by step ------------------------------------------- *)
-
-\* sort.Slice by offset.  The Go sort is not stable; only the multiset per
-\* offset matters for what follows, so a stable sort is a faithful model
-\* as long as the property does not depend on the order among equals
-\* (checked: UniqueNonFiltered keeps "the first" of equal offsets, which by
-\* offset-identity is observationally the same element).
-SortByOff(s) == SortSeq(s, LAMBDA a, b : a.off < b.off)
-
-RECURSIVE UNF(_, _, _, _, _)
-\* uniqueNonFilteredPublications: (remaining, seenKeys, list, maxSeen, skipped)
-UNF(s, keys, list, mx, sk) ==
-  IF s = <<>> THEN [list |-> list, max |-> mx, skipped |-> sk]
-  ELSE LET e   == Head(s)
-           mx2 == IF e.off > mx THEN e.off ELSE mx
-       IN IF e.f THEN UNF(Tail(s), keys, list, mx2, sk \cup {e.off})
-          ELSE IF e.off \in keys THEN UNF(Tail(s), keys, list, mx2, sk)
-          ELSE UNF(Tail(s), keys \cup {e.off}, Append(list, e), mx2, sk)
-
-RECURSIVE GapFree(_, _, _)
-\* the loop over recoveredPubs[1:] : TRUE iff no uncovered hole
-GapFree(prev, rest, sk) ==
-  IF rest = <<>> THEN TRUE
-  ELSE LET p == Head(rest).off IN
-       IF p # prev + 1
-         THEN IF sk = {} THEN FALSE
-              ELSE IF \E o \in (prev + 1)..(p - 1) : o \notin sk THEN FALSE
-              ELSE GapFree(p, Tail(rest), sk)
-         ELSE GapFree(p, Tail(rest), sk)
-
-MergeImpl(r, b) ==
-  LET all == SortByOff(r \o b)
-      u   == UNF(all, {}, <<>>, 0, {})
-      ok  == IF b # <<>> /\ Len(u.list) > 1
-               THEN GapFree(u.list[1].off, Tail(u.list), u.skipped)
-               ELSE TRUE
-  IN IF ok THEN [pubs |-> [i \in 1..Len(u.list) |-> u.list[i].off], max |-> u.max, ok |-> TRUE]
-           ELSE [pubs |-> <<>>, max |-> 0, ok |-> FALSE]
+(* --- the code, step by step: see MergeOps.tla ------------------------- *)
 
 ---------------------------------------------------------------------------
 (* --- the property, stated independently of the code's steps ------------ *)
